@@ -889,6 +889,159 @@ pub fn mutate(cs: &mut Cs, m: &GenModule) -> (Vec<u8>, Vec<&'static str>) {
 }
 
 // ---------------------------------------------------------------------------
+// G-mutate, second generation: whole-structure edits
+
+/// words that mean something elsewhere in the format, tried where an instruction's first word or an
+/// operand is expected
+pub const SPECIAL_WORDS: [u32; 10] = [MAGIC, 0x0302_2307, 0x0001_0000, 0x0001_0600, 0x0001_0300, 0x0000_0000, 0xffff_ffff, 0x0723_0000, 0x0000_0203, 0x0001_0203];
+
+fn raw_str_words(b: &[u8]) -> Vec<u32> {
+    let mut v: Vec<u8> = b.to_vec();
+    v.push(0);
+    while v.len() % 4 != 0 {
+        v.push(0);
+    }
+    v.chunks(4).map(|c| u32::from_le_bytes([c[0], c[1], c[2], c[3]])).collect()
+}
+
+/// Structural faults and structural variations on a generated module (the oracle never sees the
+/// description): a word that is special elsewhere in the format at an instruction boundary, modules
+/// stored back to back, a text split by byte count over two consecutive string-bearing instructions
+/// (inside a multi-byte character or not), an id renamed consistently to a value around 2^16 / 2^17,
+/// whole instructions swapped or repeated.
+pub fn mutate2(cs: &mut Cs, m: &GenModule) -> (Vec<u8>, Vec<&'static str>) {
+    let words = m.words();
+    let mut bounds = m.offsets();
+    bounds.push(words.len());
+    let mut w = words.clone();
+    let mut kinds = vec![];
+    let nmut = 1 + cs.below(2);
+    for _ in 0..nmut {
+        // boundaries refer to the unmodified module: after a length-changing edit only the tail edits remain sound enough
+        let b = bounds[cs.below(bounds.len())].min(w.len());
+        match cs.below(9) {
+            0 => {
+                w.insert(b, SPECIAL_WORDS[cs.below(SPECIAL_WORDS.len())]);
+                kinds.push("special-word-at-boundary");
+            }
+            1 => {
+                if b < w.len() {
+                    w[b] = SPECIAL_WORDS[cs.below(SPECIAL_WORDS.len())];
+                    kinds.push("special-first-word");
+                }
+            }
+            2 => {
+                // modules back to back: the whole module again, only its header, or only its instructions
+                match cs.below(3) {
+                    0 => w.extend(words.iter()),
+                    1 => w.extend(&words[..5.min(words.len())]),
+                    _ => w.extend(&words[5.min(words.len())..]),
+                }
+                kinds.push("appended-module");
+            }
+            3 => {
+                let copy: Vec<u32> = words.clone();
+                let at = b;
+                let tail = w.split_off(at);
+                w.extend(copy);
+                w.extend(tail);
+                kinds.push("embedded-module");
+            }
+            4 | 5 => {
+                // a text split by byte count over two consecutive instructions
+                let mut text = cs.ascii_exact(0).into_bytes();
+                let pre = cs.below(7);
+                for _ in 0..pre {
+                    text.push(b'a' + cs.below(26) as u8);
+                }
+                let mb = crate::cs::AWKWARD_CHARS[cs.below(crate::cs::AWKWARD_CHARS.len())];
+                let mb = if mb.len() < 2 { "\u{20ac}" } else { mb };
+                let from = text.len();
+                text.extend(mb.as_bytes());
+                let to = text.len();
+                let post = cs.below(7);
+                for _ in 0..post {
+                    text.push(b'a' + cs.below(26) as u8);
+                }
+                let k = match cs.below(3) {
+                    0 => cs.below(text.len() + 1),
+                    _ => from + 1 + cs.below(to - from - 1), // inside the character
+                };
+                let (p1, p2) = text.split_at(k);
+                let mk = |op: u32, lead: &[u32], part: &[u8]| -> Vec<u32> {
+                    let mut v = vec![0u32];
+                    v.extend(lead);
+                    v.extend(raw_str_words(part));
+                    v[0] = ((v.len() as u32) << 16) | op;
+                    v
+                };
+                let file = cs.below(20) as u32;
+                let (a, c) = match cs.below(6) {
+                    0 | 1 | 2 => (mk(3, &[cs.below(7) as u32, 450, file], p1), mk(2, &[], p2)),
+                    3 => (mk(2, &[], p1), mk(2, &[], p2)),
+                    4 => (mk(7, &[200 + file], p1), mk(7, &[230 + file], p2)),
+                    _ => (mk(330, &[], p1), mk(330, &[], p2)),
+                };
+                let tail = w.split_off(b);
+                w.extend(a);
+                w.extend(c);
+                w.extend(tail);
+                kinds.push("split-text");
+            }
+            6 => {
+                // one id renamed everywhere to a value around 2^16 / 2^17 (bound raised now and then)
+                let ids: Vec<u32> = m.plans.iter().filter_map(|p| p.rid).collect();
+                if !ids.is_empty() {
+                    let from = ids[cs.below(ids.len())];
+                    let to = [65_535u32, 65_536, 65_537, 131_071, 131_072, 65_536 + from, 0x0002_0000 + from][cs.below(7)];
+                    for x in w.iter_mut().skip(5) {
+                        if *x == from {
+                            *x = to;
+                        }
+                    }
+                    if cs.bool() && w.len() > 3 {
+                        w[3] = to + 1;
+                    }
+                    kinds.push("id-near-2^16");
+                }
+            }
+            7 => {
+                // swap two whole instructions
+                if m.plans.len() >= 2 && w.len() == words.len() {
+                    let i = cs.below(m.plans.len());
+                    let j = cs.below(m.plans.len());
+                    let (i, j) = (i.min(j), i.max(j));
+                    if i != j {
+                        let (si, ei) = (bounds[i], bounds[i + 1]);
+                        let (sj, ej) = (bounds[j], bounds[j + 1]);
+                        let mut v = w[..si].to_vec();
+                        v.extend(&w[sj..ej]);
+                        v.extend(&w[ei..sj]);
+                        v.extend(&w[si..ei]);
+                        v.extend(&w[ej..]);
+                        w = v;
+                        kinds.push("swap-instructions");
+                    }
+                }
+            }
+            _ => {
+                // repeat a run of instructions
+                if m.plans.len() >= 1 && w.len() == words.len() {
+                    let i = cs.below(m.plans.len());
+                    let j = (i + 1 + cs.below(3)).min(m.plans.len());
+                    let run: Vec<u32> = w[bounds[i]..bounds[j]].to_vec();
+                    let tail = w.split_off(bounds[j]);
+                    w.extend(run);
+                    w.extend(tail);
+                    kinds.push("repeat-run");
+                }
+            }
+        }
+    }
+    (words_to_bytes(&w), kinds)
+}
+
+// ---------------------------------------------------------------------------
 // Minimal module context for a single instruction (sweeps)
 
 pub const W_FUNCTION: [u32; 5] = [0x0005_0036, 1, 90, 0, 2];
